@@ -82,21 +82,25 @@ func prepare(caseID int, sub string, pcfg map[string]any, ccfg *plugin.ClientCon
 			cmd.Env = append(cmd.Env, extraEnv...)
 			var hostPrefix, plugPrefix string
 			if launch == "runner-translate" {
-				// the plugin sees the socket directory through a symlink
-				alias := filepath.Join(l.Dir, "alias")
-				os.Symlink(tmp, alias)
+				// the plugin runs in another directory and knows the socket directory
+				// only by a relative name: an address that was not translated is
+				// useless to the host
+				os.Symlink(tmp, filepath.Join(l.Dir, "sock"))
 				for i, kv := range cmd.Env {
 					if strings.HasPrefix(kv, plugin.EnvUnixSocketDir+"=") {
-						cmd.Env[i] = plugin.EnvUnixSocketDir + "=" + alias
+						cmd.Env[i] = plugin.EnvUnixSocketDir + "=sock"
 					}
 				}
-				hostPrefix, plugPrefix = tmp, alias
+				hostPrefix, plugPrefix = tmp, "sock"
 			}
 			pr, err := vp.NewProcRunner(cmd, pluginBin, cf)
 			if err != nil {
 				return nil, err
 			}
 			pr.HostPrefix, pr.PluginPrefix = hostPrefix, plugPrefix
+			if launch == "runner-translate" {
+				pr.Cmd.Dir = l.Dir
+			}
 			l.Proc = pr
 			return pr, nil
 		}
